@@ -14,10 +14,11 @@ def real_filter(tokens):
     return list(Filter(copy.deepcopy(tokens)))
 
 
-def mc_cfg(maxattrs, export):
+def mc_cfg(maxattrs, maxtags, big, export):
     return ("INIT Init\nNEXT Next\nCHECK_DEADLOCK FALSE\n"
             "INVARIANT ThmOnlyReorders\nINVARIANT ThmOrderIndependent\nINVARIANT ThmExport\n"
-            "CONSTANT MaxAttrs = %d\nCONSTANT Export = %s\n" % (maxattrs, "TRUE" if export else "FALSE"))
+            "CONSTANT MaxAttrs = %d\nCONSTANT MaxTags = %d\nCONSTANT Big = %s\nCONSTANT Export = %s\n"
+            % (maxattrs, maxtags, "TRUE" if big else "FALSE", "TRUE" if export else "FALSE"))
 
 
 def walker_streams(ctx, n):
@@ -69,25 +70,28 @@ def run(ctx):
                 "traces: walker streams of parsed repo-test inputs / soup and random attribute dictionaries. "
                 "non-trivial = token whose attribute order changes")
     # 1. model checking + export
-    r = ctx.tlc("MC_AlphaAttrs", mc_cfg(ma, True), "mc", expect_ok=True)
-    if r.violated:
-        ctx.violation("model-level theorem %s fails on the specification" % r.violated, {"tlc": r.stdout_path})
-        return
+    records = []
+    for tag, cfg in (("mc-1tag", mc_cfg(ma, 1, True, True)),
+                     ("mc-stream", mc_cfg(3, 2 if ctx.quick else 3, False, True))):
+        r = ctx.tlc("MC_AlphaAttrs", cfg, tag, expect_ok=True)
+        if r.violated:
+            ctx.violation("model-level theorem %s fails on the specification" % r.violated, {"tlc": r.stdout_path})
+            return
+        records += r.records
     ctx.exhaustive = True
-    # 2. spec -> code replay
-    for rec in r.records:
-        inp = tok.unproj_token(rec["inp"])
-        out = real_filter([inp])
-        got = [tok.proj_token(t) for t in out]
+    # 2. spec -> code replay (one real Filter instance per exported stream)
+    for rec in records:
+        inp = [tok.unproj_token(t) for t in rec["inp"]]
+        got = [tok.proj_token(t) for t in real_filter(inp)]
         ctx.traces += 1
-        if rec["inp"]["a"] != rec["out"]["a"]:
-            ctx.nontriv(("mc", str(rec["inp"]["a"])))
-        if got != [rec["out"]]:
-            ctx.violation("real filter output differs from AlphaStep", {"kind": "replay", "inp": [rec["inp"]],
-                                                                         "expected": [rec["out"]], "got": got})
-    if r.records:
-        ctx.sample({"spec_to_code": tok.show(r.records[len(r.records) // 2]["inp"]) + " -> " +
-                    tok.show(r.records[len(r.records) // 2]["out"])})
+        if rec["inp"] != rec["out"]:
+            ctx.nontriv(("mc", str([t["a"] for t in rec["inp"]])))
+        if got != rec["out"]:
+            ctx.violation("real filter output differs from AlphaStep", {"kind": "replay", "inp": rec["inp"],
+                                                                         "expected": rec["out"], "got": got})
+    if records:
+        m = records[len(records) // 2]
+        ctx.sample({"spec_to_code": [tok.show(t) for t in m["inp"]], "expected": [tok.show(t) for t in m["out"]]})
     # 3. code -> spec traces
     traces = []
     n_docs = 300 if ctx.quick else 3000
